@@ -33,8 +33,11 @@ impl Gen {
                     t.push("ft_rescheduling_task".into());
                 }
                 // closures that running tasks hand to the scheduler: one per self-rescheduling task and one per chained task
-                if ft.tasks.iter().filter(|x| x.period > 0.0 || x.at.is_none()).count() >= 2 {
+                if ft.tasks.iter().filter(|x| x.period > 0.0 || (x.at.is_none() && x.from_dsp.is_none())).count() >= 2 {
                     t.push("ft_two_or_more_closures_scheduled_by_tasks".into());
+                }
+                if ft.tasks.iter().any(|x| x.from_dsp.is_some()) {
+                    t.push("ft_task_scheduled_from_dsp".into());
                 }
                 t
             }
@@ -1071,6 +1074,8 @@ pub struct FtTask {
     pub chain_delay: f64,
     /// self-rescheduling period (0 = runs once)
     pub period: f64,
+    /// first scheduled by dsp itself, at sample 2, this long ahead (then `at` is None and nothing chains to it)
+    pub from_dsp: Option<f64>,
 }
 #[derive(Clone, Debug, PartialEq)]
 pub struct FtSpec {
@@ -1081,7 +1086,7 @@ pub struct FtSpec {
 }
 const FT_TIMES: [f64; 4] = [1.0, 2.0, 3.0, 2.5];
 const FT_PERIODS: [f64; 4] = [0.0, 1.0, 2.0, 3.0];
-const FT_RADIX: u64 = 20;
+const FT_RADIX: u64 = 24;
 pub fn ft_count(k: u32) -> u64 {
     seq_count(FT_RADIX, k)
 }
@@ -1090,12 +1095,14 @@ pub fn ft_decode(idx: u64, k: u32) -> Option<Gen> {
     let mut tasks = vec![];
     for (i, d) in digits.iter().enumerate() {
         if *d < 16 {
-            tasks.push(FtTask { at: Some(FT_TIMES[(*d / 4) as usize]), chain_delay: 0.0, period: FT_PERIODS[(*d % 4) as usize] });
-        } else {
+            tasks.push(FtTask { at: Some(FT_TIMES[(*d / 4) as usize]), chain_delay: 0.0, period: FT_PERIODS[(*d % 4) as usize], from_dsp: None });
+        } else if *d < 20 {
             if i == 0 {
                 return None;
             }
-            tasks.push(FtTask { at: None, chain_delay: FT_TIMES[(*d - 16) as usize], period: 0.0 });
+            tasks.push(FtTask { at: None, chain_delay: FT_TIMES[(*d - 16) as usize], period: 0.0, from_dsp: None });
+        } else {
+            tasks.push(FtTask { at: None, chain_delay: 0.0, period: 0.0, from_dsp: Some(FT_TIMES[(*d - 20) as usize]) });
         }
     }
     let spec = FtSpec { tasks, local: vec![] };
@@ -1157,13 +1164,16 @@ impl FtSpec {
         for i in (0..n).rev() {
             let t = &self.tasks[i];
             o.push_str(&format!("fn task{i}(){{\n  c{i} = c{i} + 1.0\n  t{i} = now\n"));
-            if i + 1 < n && self.tasks[i + 1].at.is_none() {
+            if i + 1 < n && self.chained(i + 1) {
                 o.push_str(&format!("  task{}@(now + {})\n", i + 1, fmt_num(self.tasks[i + 1].chain_delay)));
             }
             if t.period > 0.0 {
                 o.push_str(&format!("  task{i}@(now + {})\n", fmt_num(t.period)));
             }
             o.push_str("}\n");
+            if t.from_dsp.is_some() {
+                o.push_str(&format!("fn trig{i}(d){{\n  task{i}@(now + d)\n  1.0\n}}\n"));
+            }
         }
         for i in 0..n {
             if let Some(at) = self.tasks[i].at {
@@ -1171,7 +1181,13 @@ impl FtSpec {
             }
         }
         let outs: Vec<String> = (0..n).flat_map(|i| [format!("c{i}"), format!("t{i}")]).collect();
-        o.push_str(&format!("fn dsp(){{\n  ({})\n}}\n", outs.join(", ")));
+        o.push_str("fn dsp(){\n");
+        for i in 0..n {
+            if let Some(d) = self.tasks[i].from_dsp {
+                o.push_str(&format!("  let r{i} = if (now == 2.0) trig{i}({}) else 0.0\n", fmt_num(d)));
+            }
+        }
+        o.push_str(&format!("  ({})\n}}\n", outs.join(", ")));
         o
     }
     /// reference: a sorted multiset of (time, task); a task scheduled for time w runs exactly once,
@@ -1201,7 +1217,7 @@ impl FtSpec {
                 for (_, i) in due {
                     c[i] += 1.0;
                     tt[i] = s as f64;
-                    if i + 1 < n && self.tasks[i + 1].at.is_none() {
+                    if i + 1 < n && self.chained(i + 1) {
                         pending.push((s as f64 + self.tasks[i + 1].chain_delay, i + 1));
                     }
                     if self.tasks[i].period > 0.0 {
@@ -1210,8 +1226,20 @@ impl FtSpec {
                 }
             }
             out.push((0..n).flat_map(|i| [c[i], tt[i]]).collect());
+            // dsp of sample 2 schedules the tasks it owns
+            if s == 2 {
+                for (i, t) in self.tasks.iter().enumerate() {
+                    if let Some(d) = t.from_dsp {
+                        pending.push((s as f64 + d, i));
+                    }
+                }
+            }
         }
         out
+    }
+    /// task i is scheduled by task i-1 when that one runs
+    fn chained(&self, i: usize) -> bool {
+        self.tasks[i].at.is_none() && self.tasks[i].from_dsp.is_none()
     }
 }
 
